@@ -30,7 +30,7 @@ try:
         r = subprocess.run(["/venv/bin/python", "-m", "pytest", "-q", "-p", "no:cacheprovider", "--timeout=900"], cwd=d, capture_output=True, text=True)
         print("TESTS:", r.stdout.strip().splitlines()[-1])
     for p in a.props:
-        env = dict(os.environ, VERIF_REPO=d, VERIF_SEED=a.seed)
+        env = dict(os.environ, VERIF_REPO=d, VERIF_SEED=a.seed, VERIF_EVIDENCE_DIR=os.path.join(d, ".evidence"), VERIF_REPLAY_DIR="/tmp/verif_replays")
         r = subprocess.run(["/verif/check", p, "--tier", a.tier], env=env, capture_output=True, text=True)
         lines = [l for l in r.stdout.splitlines() if l.startswith(("VIOLATION", "violation:", "KNOWN"))][:3]
         print("%s rc=%d %s" % (p, r.returncode, " | ".join(l[:230] for l in lines)))
